@@ -61,7 +61,24 @@ def same_molecule(a, b):
     ma, mb = Chem.MolFromSmiles(a), Chem.MolFromSmiles(b)
     if ma is None or mb is None:
         return False
+    for m in (ma, mb):
+        for at in m.GetAtoms():
+            at.SetAtomMapNum(0)
     return Chem.MolToSmiles(ma) == Chem.MolToSmiles(mb)
+
+
+def partial_map_rewrite(smi, rng):
+    """the same molecule with atom-map labels on SOME atoms only, chosen so that a label equals (index + 1) of another
+    atom (the substrate's atom maps carry no meaning for rule application)"""
+    from rdkit import Chem
+    m = Chem.MolFromSmiles(smi)
+    if m is None or m.GetNumAtoms() < 3:
+        return None
+    n = m.GetNumAtoms()
+    for i in rng.sample(range(n), min(2, n - 1)):
+        j = rng.choice([x for x in range(n) if x != i])
+        m.GetAtomWithIdx(i).SetAtomMapNum(j + 1)
+    return Chem.MolToSmiles(m, canonical=False)
 
 
 def substrate_variants(smi, rng, k_order=2, digits=True, frags=True):
@@ -82,6 +99,10 @@ def substrate_variants(smi, rng, k_order=2, digits=True, frags=True):
         r = fragment_shuffle(src, rng)
         if r:
             out.append(("fragment-order", r))
+    if rng.random() < 0.5:
+        r = partial_map_rewrite(smi, rng)
+        if r:
+            out.append(("partial-maps", r))
     seen, res = {smi}, []
     for k, s in out:
         if s in seen or not same_molecule(smi, s):
@@ -106,6 +127,9 @@ def permute_maps(rsmi, rng, how="random"):
     nums = map_numbers(rsmi)
     if len(nums) < 2:
         return None
+    if how == "offset":        # two- and three-digit map numbers, not contiguous
+        sig = {n: 97 + 3 * n for n in nums}
+        return _MAP.sub(lambda mo: ":%d]" % sig[int(mo.group(1))], rsmi), sig
     if how == "reverse":
         img = nums[::-1]
     elif how == "shift":
@@ -123,7 +147,7 @@ def permute_maps(rsmi, rng, how="random"):
 def template_variants(rsmi, rng, k=2):
     """k = 1: reverse + one random permutation; k >= 2: reverse, cyclic shift and k - 1 random permutations"""
     out, seen = [], {rsmi}
-    hows = [] if not k else (["reverse", "random"] if k == 1 else ["reverse", "shift"] + ["random"] * (k - 1))
+    hows = [] if not k else (["reverse", rng.choice(["random", "offset"])] if k == 1 else ["reverse", "shift", "offset"] + ["random"] * (k - 1))
     for how in hows:
         r = permute_maps(rsmi, rng, how)
         if r and r[0] not in seen:
@@ -165,6 +189,13 @@ HAND = [
     ("tishchenko-implicit", "[CH:1]=[O:2].[CH:3]=[O:4]>>[C:1](=[O:2])[O:4][CH2:3]", ["CC=O.O=Cc1ccccc1", "CC=O.CCC=O", "O=CCC=O"], [False], ["I"]),
     ("cannizzaro-implicit", "[CH:1]=[O:2].[CH:3]=[O:4].[OH2:5]>>[C:1](=[O:2])[OH:5].[CH2:3][OH:4]", ["CC=O.O=Cc1ccccc1.O", "O=Cc1ccccc1.O=Cc1ccccc1.O"], [False], ["I"]),
     ("radical-disproportionation", "[CH2:1][CH3:2].[CH2:3][CH3:4]>>[CH3:1][CH3:2].[CH2:3]=[CH2:4]", ["[CH2]C.[CH2]CC", "CC.CCC"], [False], ["I"]),
+    # a ring of centre atoms closed by a bond that does not change (the pattern lacks it, the substrate has it)
+    ("meinwald", "[CH2:1]1[O:2][CH:3]1>>[CH3:1][C:3]=[O:2]", ["C1OC1C", "C1OC1CCOC", "CC1OC1C.COC"], [False], ["I"]),
+    ("cyclopropane-opening", "[CH2:1]1[CH2:2][CH:3]1[Br:4]>>[CH2:1]=[CH:2][CH2:3][Br:4]", ["C1CC1Br", "CC1CC1Br"], [False], ["I"]),
+    # degenerate rules and substrates: one centre atom, ions, a single atom, nothing changes
+    ("deprotonation-1atom", "[OH:1]>>[O-:1]", ["CO", "O", "OCCO", "[Na+].[OH-].CO"], [False], ["I"]),
+    ("protonation-1atom", "[NH2:1]>>[NH3+:1]", ["CN", "N", "NCCN.[Cl-]"], [False, True], ["I"]),
+    ("identity", "[CH3:1][OH:2]>>[CH3:1][OH:2]", ["CO", "OCCO"], [False], ["I"]),
     ("three-component", "[CH3:1][Br:2].[CH3:3][I:4].[CH3:5][Cl:6]>>[CH3:1][I:4].[CH3:3][Cl:6].[CH3:5][Br:2]", ["CBr.CI.CCl", "CCBr.CCI.CCCl"], [False], ["I"]),
     ("single-symmetric", "[CH3:1][CH2:2][CH3:3]>>[CH3:1][CH:2]=[CH2:3]", ["CCC", "CC(C)C", "CCCC"], [False], ["I"]),
     ("ring-symmetric", "[cH:1]1[cH:2][cH:3][cH:4][cH:5][cH:6]1.[Br:7][Br:8]>>[cH:1]1[cH:2][cH:3][cH:4][cH:5][c:6]1[Br:7].[BrH:8]", ["c1ccccc1.BrBr", "Cc1ccccc1.BrBr"], [False], ["I"]),
